@@ -223,6 +223,14 @@ func errPropFunc(p *prog.Prog, info *types.Info, fname string, outer *ast.FuncTy
 			used := false
 			for _, u := range l[i+1:] {
 				if u.isDef {
+					// a later definition ends this one's live range only when it runs after it: one in a
+					// sibling branch (if / else-if / case arms each assigning err, one shared return at
+					// the end) does not
+					if u.stmt != nil && d.stmt != nil {
+						if lo, hi := enclosingList(p, u.stmt); lo.IsValid() && !(lo <= d.stmt.Pos() && d.stmt.End() <= hi) {
+							continue
+						}
+					}
 					break
 				}
 				used = true
@@ -626,4 +634,28 @@ func registerErrProp(s errPropSpec) {
 				r.Error("floor: %s: only %d error definitions analysed (at least %d confirmed by hand)", s.Pkg, nDefs, s.Floor)
 			}
 		}})
+}
+
+// enclosingList returns the extent of the innermost statement list (block, case or comm clause)
+// that directly contains st.
+func enclosingList(p *prog.Prog, st ast.Node) (token.Pos, token.Pos) {
+	f := p.FileAt(st.Pos())
+	if f == nil {
+		return token.NoPos, token.NoPos
+	}
+	path := p.PathTo(f, st.Pos(), st.End())
+	for k := len(path) - 1; k >= 0; k-- {
+		if path[k] == st {
+			continue
+		}
+		switch x := path[k].(type) {
+		case *ast.BlockStmt:
+			return x.Pos(), x.End()
+		case *ast.CaseClause:
+			return x.Pos(), x.End()
+		case *ast.CommClause:
+			return x.Pos(), x.End()
+		}
+	}
+	return token.NoPos, token.NoPos
 }
